@@ -132,6 +132,32 @@ def check(run: Run) -> None:
     rt = strip_sites(fn.return_term())
     nn = ("param", vn.pos_params[1])
     run.check(nn in unphi_terms(rt), "C05.R3", vn, vn.node, "unmapped names are left alone", "visit_Name never returns the name unchanged")
+    # the search ends at the innermost map that *has* the name, whatever it is bound to: a shadow entry (name -> None,
+    # pushed for a nested lambda's or a comprehension's own variables) must stop it, not be skipped as "absent"
+    if loops and ok_rev:
+        lp_ = loops[0]
+        lv_ = lp_.target.id if isinstance(lp_.target, ast.Name) else None
+
+        def _all_return(stmts) -> bool:
+            if not stmts:
+                return False
+            last = stmts[-1]
+            if isinstance(last, (ast.Return, ast.Raise)):
+                return True
+            if isinstance(last, ast.If):
+                return _all_return(last.body) and _all_return(last.orelse)
+            return False
+
+        stops = False
+        for x_ in ast.walk(lp_):
+            if isinstance(x_, ast.If) and isinstance(x_.test, ast.Compare) and len(x_.test.ops) == 1 and isinstance(x_.test.ops[0], ast.In) and isinstance(x_.test.comparators[0], ast.Name) and x_.test.comparators[0].id == lv_ and fn.cfg.has_node(x_) and strip_sites(fn.term_of(x_.test.left)) == ("attr", nn, "id"):
+                stops = stops or _all_return(x_.body)
+            if isinstance(x_, ast.If) and isinstance(x_.test, ast.Compare) and len(x_.test.ops) == 1 and isinstance(x_.test.ops[0], ast.NotIn) and isinstance(x_.test.comparators[0], ast.Name) and x_.test.comparators[0].id == lv_ and len(x_.body) == 1 and isinstance(x_.body[0], ast.Continue):
+                # if name not in m: continue   followed by statements that all return
+                body_ = lp_.body
+                if x_ in body_:
+                    stops = stops or _all_return(body_[body_.index(x_) + 1:])
+        run.check(stops, "C05.R3", vn, lp_, "the search stops at the innermost map that has the name (membership, not value)", "the lookup of a name does not stop at the innermost frame that *contains* it: a frame that binds the name to None - the shadow frame pushed for the parameters of a nested lambda or the loop variables of a comprehension - is treated as if the name were absent, the search falls through to an outer called lambda's arguments and the hidden name is substituted", "if node.id in arg_map: replacement = arg_map[node.id]; return replacement if replacement is not None else node", key="shadow entry skipped as absent")
 
     # ---------------- R2
     vl = cls.methods.get("visit_Lambda")
